@@ -1,3 +1,4 @@
+import re
 from collections.abc import Iterable
 
 from formulaic.utils.code import format_expr, sanitize_variable_names
@@ -31,7 +32,10 @@ def sanitize_python_code(expr: str) -> str:
     expr = format_expr(
         sanitize_variable_names(expr, {}, aliases, template="_formulaic_{}")
     )
-    while aliases:
-        alias, orig = aliases.popitem()
-        expr = expr.replace(alias, f"`{orig}`")
+    # Substitute whole identifiers only (an alias can be a prefix of another
+    # alias, or occur inside a longer name).
+    for alias, orig in aliases.items():
+        expr = re.sub(
+            rf"(?<![\w]){re.escape(alias)}(?![\w])", lambda _: f"`{orig}`", expr
+        )
     return expr
